@@ -29,6 +29,7 @@
 #include "vdrv.h"
 #include <stdbool.h>
 #include <math.h>
+#include <setjmp.h>
 #include "instant.h"
 #include "event.h"
 #include "dt-strpf.h"
@@ -147,6 +148,45 @@ init_wrk(void)
 static long n_arrays, n_nontriv;
 /* count=0: a second pass over arrays another driver counts already (asan) */
 static int count_nt = 1;
+
+/* watchdog: a timer on the worker's own CPU time ticks every 0.4 s; a sort
+ * that is seen in progress by three consecutive ticks (>= 0.8 s of CPU for at
+ * most 4096 elements, four orders of magnitude above the normal cost) is
+ * abandoned and reported as non-terminating.  No system call per array. */
+static volatile unsigned long sort_seq;
+static volatile int in_sort;
+static sigjmp_buf sort_jmp;
+
+static void
+tick(int sig)
+{
+	static unsigned long seen = -1UL;
+	static int stuck;
+	(void)sig;
+	if (in_sort && seen == sort_seq) {
+		if (++stuck >= 2) {
+			stuck = 0;
+			in_sort = 0;
+			siglongjmp(sort_jmp, 1);
+		}
+	} else {
+		seen = sort_seq;
+		stuck = 0;
+	}
+}
+
+static void
+init_tick(void)
+{
+	struct sigaction sa;
+	struct itimerval it = {{0, 400000}, {0, 400000}};
+	memset(&sa, 0, sizeof(sa));
+	sa.sa_handler = tick;
+	sa.sa_flags = SA_RESTART;
+	sigemptyset(&sa.sa_mask);
+	sigaction(SIGVTALRM, &sa, NULL);
+	setitimer(ITIMER_VIRTUAL, &it, NULL);
+}
 
 static void
 mk_elem(int kind, void *tgt, echs_instant_t v, int rank, size_t idx)
@@ -273,11 +313,22 @@ run(int kind, const struct alph_s *a, size_t n, const char *grp, const char *wha
 #endif
 	memcpy(w, inbuf, n * esz);
 
+	sort_seq++;
+	if (sigsetjmp(sort_jmp, 1)) {
+		/* the watchdog took us out of the sort */
+		snprintf(sig, sizeof(sig), "nonterm/%s/%s/%s", kname[kind], lenclass(n), grp);
+		keystr(ks, sizeof(ks), key, n);
+		vd_viol(sig, "%s n=%zu alphabet %s %s%s%s: sort still running after 0.8 s of CPU time",
+			kname[kind], n, a->name, what, *ks ? " keys " : "", ks);
+		goto out;
+	}
+	in_sort = 1;
 	if (kind == K_INST) {
 		echs_instant_sort((echs_instant_t*)w, n);
 	} else {
 		echs_event_sort((echs_event_t*)w, n);
 	}
+	in_sort = 0;
 
 #if !defined __SANITIZE_ADDRESS__
 	for (const unsigned char *p = w - GUARD * esz; p < w; p++) {
@@ -379,6 +430,7 @@ run(int kind, const struct alph_s *a, size_t n, const char *grp, const char *wha
 				kname[kind], n, a->name, what, *ks ? " keys " : "", ks);
 		}
 	}
+out:
 #if defined __SANITIZE_ADDRESS__
 	free(blk);
 #else
@@ -845,6 +897,7 @@ enumerate(void)
 
 	dense = vd_opt_l("dense", 0);
 	count_nt = vd_opt_l("count", 1) != 0;
+	init_tick();
 	init_alph();
 #if !defined __SANITIZE_ADDRESS__
 	init_wrk();
